@@ -11,13 +11,17 @@ def parseKeys (j : Json) (k : String) : Keys :=
     | .error _ => [])
 
 /-- corrupt kinds the model treats as "does not parse" -/
-def parseCOp (j : Json) : Option COp :=
+def parseCOp (j : Json) (o : Json := Json.null) : Option COp :=
   let site := (toString (jnat j "site" % 3)).toList
   match jstr (jget j "k") with
   -- model time in milliseconds: every operation of the real run takes a little time (see `tick`)
   | "invoke" => some (.invoke site (parseKeys j "kb") (parseKeys j "ka") (jint j "timeout" * 1000) (jbool j "msg"))
   | "advance" => some (.advance (jnat j "dt" * 1000))
-  | "corrupt" => some (.corrupt site (parseKeys j "kb"))
+  | "corrupt" =>
+    let kind := jstr (jget j "kind")
+    -- a directory or a symbolic link onto itself in place of the file (only when the file was there): neither readable nor replaceable
+    if kind == "loop" || kind == "dir" then (if jbool o "corrupted" then some (.block site (parseKeys j "kb")) else none)
+    else some (.corrupt site (parseKeys j "kb"))
   | _ => none       -- foreign files: no effect on any entry
 
 def outOf (j : Json) : COut × Bool :=
@@ -29,16 +33,17 @@ def runCacheOp (inp out : Json) : Json :=
   let opsJ := (jarr inp "ops").toList
   let outsJ := (jarr out "outs").toList
   -- run model and spec step by step over the ops that matter; align outputs with the invoke ops
-  let step (acc : CState × SState × List (COut × COut)) (j : Json) : CState × SState × List (COut × COut) :=
+  let step (acc : CState × SState × List (COut × COut)) (jo : Json × Json) : CState × SState × List (COut × COut) :=
     let (c, s, outs) := acc
-    match parseCOp j with
+    let (j, o) := jo
+    match parseCOp j o with
     | none => (c, s, outs ++ [(none, none)])
     | some op =>
       let (c', oc) := cacheStep c op
       let (s', os) := storeStep s op
       -- real time passes between operations: one tick
       ((cacheStep c' (.advance 1)).1, (storeStep s' (.advance 1)).1, outs ++ [(oc, os)])
-  let (_, _, mouts) := opsJ.foldl step ({}, {}, [])
+  let (_, _, mouts) := (opsJ.zip (outsJ ++ List.replicate (opsJ.length - outsJ.length) Json.null)).foldl step ({}, {}, [])
   -- byte-identical results: only "did a real invocation happen" is observable
   let const := jbool inp "const"
   let blur (o : COut) : COut := if const then o.map (fun (_, real) => (0, real)) else o
